@@ -188,6 +188,12 @@ class ParamResolver:
         if isinstance(value, sympy.Pow) and len(value.args) == 2:
             base = self.value_of(value.args[0], recursive)
             exponent = self.value_of(value.args[1], recursive)
+            # Partially resolved sub-expressions can come back as sympy numbers (e.g. 1.0**a + 3.25),
+            # which numpy's float_power cannot take.
+            if isinstance(base, sympy.Number):
+                base = float(base)
+            if isinstance(exponent, sympy.Number):
+                exponent = float(exponent)
             # Casts because numpy can handle expressions (by delegating to __pow__), but does
             # not have signature that will support this.
             if isinstance(base, numbers.Number) and isinstance(exponent, numbers.Number):
